@@ -787,6 +787,12 @@ class SymArr(np.ndarray):
 
     def __array_ufunc__(self, ufunc, method, *inputs, out=None, **kwargs):
         sym = any(_has_sym(i) for i in inputs)
+        if sym and out is not None and method == "__call__" and len(out) == 1 and (
+                ufunc in (np.maximum, np.minimum, np.absolute, np.sign) or ufunc in _CMP):
+            # merged kernel with an explicit output buffer (np.clip(..., out=a), np.maximum(a, 0, out=a))
+            res = self.__array_ufunc__(ufunc, method, *inputs, **kwargs)
+            out[0][...] = res
+            return out[0]
         if sym and out is None:
             if method == "__call__":
                 if ufunc is np.maximum:
